@@ -3,7 +3,8 @@
    Units: requested values in ticks; observations in 1/q HALF ticks (q in the case).  One case = one history.
    event fields: op ("ctor","birth","pers","pix","fit"), r1 (birth range asked, ticks), r2 (persistence range asked), pz (pixel
    size asked, ticks; 0 if none), pts (fitted points as [birth, pers] in ticks, already in birth-persistence coordinates),
-   lattice (0/1), obs = [ps, b0, b1, p0, p1, W, H] in 1/q half ticks, res = [rx, ry], shape = [sx, sy],
+   lattice (0/1), obs = [ps, b0, b1, p0, p1, W, H] in 1/q half ticks, res = [rx, ry], shapes = [[sx, sy]] (the distinct shapes of
+   all images produced after the operation: single diagrams, members of collections, empty diagrams alone and inside a collection),
    probes = [[i, j, [[ii, jj, mass_ppb], ...]]] : image of one unit-weight point placed tick/8 inside a corner of pixel (i,j) under a tiny
    box kernel (side tick/16): the mesh has square pixels of the configured size aligned with the covered range only if all of the mass
    lands in exactly that pixel, for all four corners.                                                                                                       *)
@@ -31,7 +32,7 @@ Clause(e, prev, q) ==
   ELSE IF ps # a[5] THEN "pixel-size-not-as-configured"
   ELSE IF ~(e.res[1] * ps = o[6] /\ e.res[2] * ps = o[7]) THEN "resolution-times-pixel-size-differs-from-width-height"
   ELSE IF ~(o[6] = o[3] - o[2] /\ o[7] = o[5] - o[4]) THEN "width-height-differ-from-covered-range"
-  ELSE IF ~(e.shape[1] = e.res[1] /\ e.shape[2] = e.res[2]) THEN "image-shape-differs-from-resolution"
+  ELSE IF \E si \in 1..Len(e.shapes) : ~(e.shapes[si][1] = e.res[1] /\ e.shapes[si][2] = e.res[2]) THEN "image-shape-differs-from-resolution"
   ELSE IF ~(o[2] <= a[1] /\ a[2] <= o[3] /\ o[4] <= a[3] /\ a[4] <= o[5]) THEN "covered-range-does-not-contain-request"
   ELSE IF ~((o[3] - o[2]) - (a[2] - a[1]) <= ps /\ (o[5] - o[4]) - (a[4] - a[3]) <= ps) THEN "covered-range-exceeds-request-by-more-than-a-pixel"
   ELSE IF \E pi \in 1..Len(e.probes) :
